@@ -67,6 +67,9 @@ type Obligation struct {
 	ModelVars []string `json:"-"`
 	enc       *Enc
 	cand      *candInv
+	candKey   string
+	Support   bool   `json:"support,omitempty"`
+	ReachS    string `json:"-"`
 }
 
 type loopInfo struct {
@@ -269,7 +272,9 @@ func (e *Enc) needSort(s Sort) {
 			return
 		}
 		e.decl["sort:"+str] = true
+		e.p.mu.Lock()
 		t := e.p.structBySort[str]
+		e.p.mu.Unlock()
 		if t == nil {
 			e.emit(fmt.Sprintf("(declare-sort %s 0)", str))
 			return
@@ -292,12 +297,14 @@ func (e *Enc) needSort(s Sort) {
 func (e *Enc) sortOf(t types.Type) Sort {
 	s := e.p.SortOf(t)
 	if strings.HasPrefix(string(s), "S_") {
+		e.p.mu.Lock()
 		if e.p.structBySort == nil {
 			e.p.structBySort = map[string]types.Type{}
 		}
 		if _, ok := e.p.structBySort[string(s)]; !ok {
 			e.p.structBySort[string(s)] = t
 		}
+		e.p.mu.Unlock()
 	}
 	e.needSort(s)
 	return s
@@ -329,7 +336,10 @@ func (e *Enc) keySort(key string) Sort {
 		if gl, ok := g.(*ssa.Global); ok {
 			return e.sortOf(derefType(gl.Type()))
 		}
-		if gl := e.p.externGlobals[parts[1]]; gl != nil {
+		e.p.mu.Lock()
+		gl := e.p.externGlobals[parts[1]]
+		e.p.mu.Unlock()
+		if gl != nil {
 			return e.sortOf(derefType(gl.Type()))
 		}
 		panic("unknown global " + key)
@@ -410,9 +420,11 @@ func (e *Enc) expandKeys(ks KeySet) []string {
 		for k := range e.heap0 {
 			u.Add(k)
 		}
+		e.p.mu.Lock()
 		for k := range e.p.allKeys {
 			u.Add(k)
 		}
+		e.p.mu.Unlock()
 		return u.Sorted()
 	}
 	for k := range ks {
@@ -525,10 +537,10 @@ func (e *Enc) typeInv(v Term, t types.Type, now Term) Term {
 			return And(Le(BigLit(lo), v), Le(v, BigLit(hi)))
 		}
 		if u.Info()&types.IsString != 0 {
-			return Ge(StrLen(v), IntLit(0))
+			return And(Ge(StrLen(v), IntLit(0)), Le(StrLen(v), BigLit(maxLenStr)))
 		}
 	case *types.Slice:
-		return And(Ge(SliceLen(v), IntLit(0)), Ge(SliceCap(v), SliceLen(v)), Ge(SliceOff(v), IntLit(0)),
+		return And(Ge(SliceLen(v), IntLit(0)), Ge(SliceCap(v), SliceLen(v)), Ge(SliceOff(v), IntLit(0)), Le(SliceCap(v), BigLit(maxLenStr)),
 			Lt(Birth(SliceArr(v)), now),
 			Implies(Eq(SliceArr(v), IntLit(0)), Eq(SliceCap(v), IntLit(0))))
 	case *types.Pointer, *types.Map, *types.Chan, *types.Signature, *types.Interface:
@@ -539,13 +551,20 @@ func (e *Enc) typeInv(v Term, t types.Type, now Term) Term {
 
 // ---------- obligations ----------
 
+// oblige names an obligation by function, kind, detail and a hash of the source line it comes from
+// (plus an ordinal among equal ones), so that edits elsewhere in the function do not rename it.
 func (e *Enc) oblige(kind, detail string, pos token.Pos, goal Term, props []string, src string) *Obligation {
-	key := kind + "/" + detail
+	lh := e.p.lineHash(pos)
+	key := kind + "/" + detail + "@" + lh
 	ord := e.ordinals[key]
 	e.ordinals[key] = ord + 1
-	name := e.name + "/" + kind + "#" + itoa(ord)
+	name := e.name + "/" + kind
 	if detail != "" {
 		name += "/" + detail
+	}
+	name += "@" + lh
+	if ord > 0 {
+		name += "#" + itoa(ord)
 	}
 	return e.obligeNamed(name, kind, detail, pos, goal, props, src)
 }
@@ -557,6 +576,7 @@ func (e *Enc) obligeNamed(name, kind, detail string, pos token.Pos, goal Term, p
 		return ob
 	}
 	ob.PrefixLen = e.sb.Len()
+	ob.ReachS = e.curReach.S
 	neg := And(e.curReach, Not(goal))
 	ob.Goal = "(assert " + neg.S + ")"
 	if goal.S == "true" || e.curReach.S == "false" {
@@ -566,8 +586,14 @@ func (e *Enc) obligeNamed(name, kind, detail string, pos token.Pos, goal Term, p
 	e.emit(ob.Goal)
 	e.emit("(check-sat)")
 	e.emit("(pop 1)")
-	// subsequent code may rely on it
-	e.assume(goal)
+	// subsequent code may rely on safety facts (index in range, divisor non-zero, asserted type, callee
+	// preconditions, invariants); pure proof goals (frames, effects, locks, postconditions) are not assumed,
+	// so that one failing goal does not make the goals after it vacuous.
+	switch kind {
+	case "frame", "effect", "lock", "post", "typeinv", "typeinv-new", "cand":
+	default:
+		e.assume(goal)
+	}
 	e.obs = append(e.obs, ob)
 	return ob
 }
@@ -688,7 +714,7 @@ func (e *Enc) instrMod(in ssa.Instruction, li *loopInfo) {
 
 // callMod: heap keys a call may modify (contract assigns or inferred write set).
 func (e *Enc) callMod(c *ssa.CallCommon) KeySet {
-	tmp := &modInfo{direct: KeySet{}, callees: map[*ssa.Function]bool{}}
+	tmp := &modInfo{direct: KeySet{}, callees: map[*ssa.Function]bool{}, owner: e.fn}
 	if fc := e.calleeContract(c); fc != nil && fc.HasAssigns {
 		ks := KeySet{}
 		for _, a := range fc.Assigns {
@@ -717,6 +743,9 @@ func (e *Enc) Encode() {
 	e.emit("; function " + e.name)
 	e.analyzeCFG()
 	e.collectNames()
+	if e.opts.Houdini {
+		e.genCandidates()
+	}
 	fn := e.fn
 
 	// entry state
@@ -734,6 +763,15 @@ func (e *Enc) Encode() {
 		v := e.declare("fv_"+sanitize(fv.Name()), e.sortOf(fv.Type()))
 		e.vals[fv] = Val{T: v, Typ: fv.Type()}
 		e.assert(e.typeInv(v, fv.Type(), e.now0))
+		// a captured variable is a cell of the enclosing function
+		if b := e.p.resolveFreeVarDeep(fv); b != nil {
+			if al, ok := b.(*ssa.Alloc); ok {
+				if k := e.p.cvKeyMaybe(al); k != "" {
+					e.registerKey(k)
+					e.vals[fv] = Val{T: v, Typ: fv.Type(), Addr: &Addr{Kind: "cv", Base: v, Key: k, Elem: derefType(fv.Type())}}
+				}
+			}
+		}
 	}
 	e.entry = st.clone()
 	e.emitAxioms()
